@@ -999,3 +999,93 @@ def site_time_helpers(g):
         g.forall_paths(f"{name}:site-time-is-max-of-estimate-and-oldest-historical-carrier", paths, pred2,
                        "copy.sites_time[:] = np.maximum(sites_time, samples.min_site_times(individuals_only=True)) on a copy that is "
                        "finalised and returned; a length mismatch raises ValueError; `samples` itself is not written")
+
+
+# =====================================================================================================================
+# C22: frame of the singleton re-phasing.  Mutation nodes are only ever changed by ExpectationPropagation.infer, only
+# at mutations that belong to a singleton block, and only to the child end of one of the two edges of THAT block.
+def phase_switch_frame(g):
+    import re
+    from .flow import text_of
+
+    def T(x):
+        return x if isinstance(x, str) else text_of(x)
+
+    def strip(s):
+        return re.sub(r"#\d+", "", s)
+    cls = "variational.ExpectationPropagation"
+    # (a) which methods of the class write self.mutation_nodes at all (AST scan of the real class)
+    try:
+        fn_init = extract.get_function(f"{cls}.__init__")
+        mod = extract.get_module("variational") if hasattr(extract, "get_module") else None
+    except LookupError as e:
+        g.ob(f"{cls}:attach", False, "class exists", str(e), verdict="does-not-attach")
+        return
+    import os
+    src_path = os.path.join(os.environ.get("VERIF_REPO", "/repo"), "tsdate", "variational.py")
+    tree = ast.parse(open(src_path).read())
+    writers = set()
+    for c in [n for n in tree.body if isinstance(n, ast.ClassDef) and n.name == "ExpectationPropagation"]:
+        for m in [n for n in c.body if isinstance(n, ast.FunctionDef)]:
+            for n in ast.walk(m):
+                if isinstance(n, (ast.Assign, ast.AugAssign)):
+                    for t in (n.targets if isinstance(n, ast.Assign) else [n.target]):
+                        for x in ast.walk(t):
+                            if isinstance(x, ast.Attribute) and x.attr == "mutation_nodes":
+                                writers.add(m.name)
+                if isinstance(n, ast.Call) and any(isinstance(a, ast.Attribute) and a.attr == "mutation_nodes" for a in n.args):
+                    writers.add(m.name + " (passed to " + ast.unparse(n.func) + ")")
+    ok = writers == {"__init__", "infer"}
+    g.ob(f"{cls}:only-__init__-and-infer-write-mutation_nodes", ok,
+         "self.mutation_nodes is assigned only in __init__ and infer and is never handed to a callee that could write it",
+         None if ok else f"writers: {sorted(writers)}")
+    # (b) __init__: starts as a COPY of the input's mutation nodes; blocks come from block_singletons(ts, ~phased mask)
+    paths = g.trace(f"{cls}.__init__")
+    if paths is not None:
+        def init_pred(p):
+            if p.status == "raise":
+                return None
+            st = [strip(T(ev["value"])) for ev in p.events if ev["kind"] == "store" and ev["target"] == "self.mutation_nodes"]
+            if st != ["ts.mutations_node.copy(...)"]:
+                return f"self.mutation_nodes initialised as {st}"
+            bl = [strip(T(ev["value"])) for ev in p.events if ev["kind"] == "store" and ev["target"] == "self.mutation_blocks"]
+            if bl != ["block_singletons(...)[2]"]:
+                return f"self.mutation_blocks initialised as {bl}"
+            bs = [ev for ev in p.events if ev["kind"] == "call" and ev["func"] == "block_singletons"]
+            full = [[T(a) for a in ev["args"]] for ev in p.events if ev["kind"] == "call" and ev["func"] == "np.full"
+                    and [T(a) for a in ev["args"]][:1] == ["ts.num_individuals"]]
+            if len(bs) != 1 or full != [["ts.num_individuals", "singletons_phased"]]:
+                return f"block_singletons calls: {[ev['text'] for ev in bs]}; phased mask: {full}"
+            a = [strip(T(x)) for x in bs[0]["args"]]
+            if a[0] != "ts" or "Invert" not in a[1] and "~" not in a[1]:
+                return f"block_singletons arguments {a} (expected ts and the complement of the phased mask)"
+            return None
+        g.forall_paths(f"{cls}.__init__:mutation-nodes-start-as-a-copy-and-blocks-come-from-the-unphased-mask", paths, init_pred,
+                       "self.mutation_nodes = ts.mutations_node.copy(); self.mutation_blocks = block_singletons(ts, ~np.full(num_individuals, "
+                       "singletons_phased))[2]  (so with singletons_phased=True no individual is unphased)")
+    # (c) infer: the one store
+    paths = g.trace(f"{cls}.infer")
+    if paths is not None:
+        def inf_pred(p):
+            if p.status == "raise":
+                return None
+            st = [ev for ev in p.events if ev["kind"] == "store-item" and ev["target"] == "self.mutation_nodes"]
+            if len(st) != 1:
+                return f"{len(st)} stores into self.mutation_nodes"
+            if _norm(T(st[0]["index"])) != _norm("self.mutation_blocks != tskit.NULL"):
+                return f"mutation nodes written at `{T(st[0]['index'])}`, not exactly at the mutations that belong to a singleton block"
+            if strip(T(st[0]["value"])) != "self.edge_children[np.where(...)]":
+                return f"new node is {strip(T(st[0]['value']))}, not the child end of the chosen block edge"
+            w = [ev for ev in p.events if ev["kind"] == "call" and ev["func"] == "np.where" and len(ev["args"]) == 3]
+            if len(w) != 1:
+                return f"{len(w)} three-argument np.where calls"
+            a = [_norm(strip(T(x))) for x in w[0]["args"]]
+            blk = _norm("self.mutation_blocks[self.mutation_blocks != tskit.NULL]")
+            e1, e0 = _norm(f"self.block_edges[({blk}, 1)]"), _norm(f"self.block_edges[({blk}, 0)]")
+            alt = {a[1].replace("(", "").replace(")", ""), a[2].replace("(", "").replace(")", "")}
+            if alt != {e1.replace("(", "").replace(")", ""), e0.replace("(", "").replace(")", "")}:
+                return f"the candidate edges are {a[1]} / {a[2]}, not the two edges of the mutation's own block"
+            return None
+        g.forall_paths(f"{cls}.infer:re-phasing-moves-only-block-singletons-to-a-child-of-their-own-block", paths, inf_pred,
+                       "the only write: mutation_nodes[blocks != NULL] = edge_children[where(.., block_edges[block, 1], block_edges[block, 0])] "
+                       "with block = mutation_blocks of the same mutation")
